@@ -353,3 +353,82 @@ func closeThenConnect(o *out, c *hx.Ctx) {
 		c.Stat("scenarios", 1)
 	}
 }
+
+// ------------------------------------------------------------------- C06 / C12
+
+// ownQueueFull: a client that subscribes to what it publishes and does not drain its deliveries runs into its own full
+// queue.  The broker cannot wait for that client (it would wait for itself) and refuses the publish with an error; the
+// message must then reach either every other matching subscriber or none of them — not the ones that happen to come
+// first in the broker's session map.  For a will (the publisher is gone, nobody will read its queue) every other
+// matching subscriber must still get it.
+func ownQueueFull(o *out, c *hx.Ctx, will bool) {
+	rounds := 6
+	if c.Thorough() {
+		rounds = 24
+	}
+	for r := 0; r < rounds; r++ {
+		kind := "publish"
+		if will {
+			kind = "will"
+		}
+		n := o.scn(fmt.Sprintf("c06 %s into the publisher's own full queue, round %d", kind, r))
+		s := startSys(1, 2)
+		var obs []*peer
+		for i := 0; i < 6; i++ {
+			p, _ := dialPeer(fmt.Sprintf("o%d", i), s.port, true)
+			// clean and persistent observers: the broker keeps them in two maps
+			if p.connect(fmt.Sprintf("oq-o%d", i), i%2 == 0, nil) == nil || !p.subscribe(1, "oq/#", 1) {
+				o.direct("setup", n, false, "observer could not connect")
+			}
+			obs = append(obs, p)
+		}
+		pub, _ := dialPeer("P", s.port, false) // never acknowledges what it receives
+		var w *packet.Message
+		if will {
+			w = &packet.Message{Topic: "oq/will", Payload: []byte("gone"), QOS: 1}
+		}
+		pub.connect("oq-p", r%2 == 0, w)
+		pub.subscribe(1, "oq/#", 1)
+		// one delivery to P in flight and unacknowledged (window 1) + two queued: P's own queue (size 2) is full
+		for i := 0; i < 3; i++ {
+			pub.send(&packet.Publish{ID: packet.ID(1 + i), Message: packet.Message{Topic: "oq/x", Payload: payload(1, 1, i), QOS: 1}})
+		}
+		filled := waitFor(2*time.Second, func() bool { return ackCount(pub) >= 3 })
+		if will {
+			pub.close()
+		} else {
+			pub.send(&packet.Publish{ID: 4, Message: packet.Message{Topic: "oq/x", Payload: payload(1, 1, 3), QOS: 1}})
+		}
+		pub.isClosed(2 * time.Second)
+		got := 0
+		for _, p := range obs {
+			p.idle(30*time.Millisecond, time.Second)
+			for _, m := range p.received() {
+				if will && m.Message.Topic == "oq/will" {
+					got++
+				} else if _, _, i, ok := parsePayload(m.Message.Payload); !will && ok && i == 3 {
+					got++
+				}
+			}
+		}
+		if will {
+			o.direct("will_delivered", n, filled && got == len(obs), fmt.Sprintf("own queue filled=%v; the will reached %d of %d matching observers", filled, got, len(obs)))
+		} else {
+			acked := ackCount(pub) >= 4
+			ok := filled && ((got == 0 && !acked) || got == len(obs))
+			o.direct("all_or_nothing", n, ok, fmt.Sprintf("own queue filled=%v; the refused publish (acknowledged to the publisher=%v) reached %d of %d matching observers", filled, acked, got, len(obs)))
+		}
+		for _, p := range obs {
+			p.close()
+		}
+		s.stop()
+		o.syslog(n, s)
+		c.Stat("scenarios", 1)
+	}
+}
+
+func runC06(c *hx.Ctx) {
+	o := &out{c: c}
+	ownQueueFull(o, c, false)
+	ownQueueFull(o, c, true)
+}
